@@ -49,6 +49,9 @@ type Block struct {
 	Kind  byte
 	Pred  int    // predicate mode
 	Err   string // non-empty: return this error message
+	// ErrText: the message also names the matched text (Err + ":" + text), so that the same block
+	// run again at the same start on ANOTHER text makes another message
+	ErrText bool
 	Panic int    // 0 none, 1 panic(error), 2 panic(string)
 	Ops   int    // state operations attempted by the block
 	Ret   int    // action return kind
@@ -340,6 +343,9 @@ func RunBlock(ctx *Ctx, kind byte, id int, pos [3]int, text []byte, state, globa
 	}
 	if blk.Err != "" {
 		err = &ScriptErr{Seq: ctx.ErrSeq, Msg: blk.Err}
+		if blk.ErrText {
+			err = &ScriptErr{Seq: ctx.ErrSeq, Msg: blk.Err + ":" + string(text)}
+		}
 	}
 	switch kind {
 	case KAction:
